@@ -53,8 +53,11 @@ fn index_class(n: usize, i: usize) -> &'static str {
 /// Invalid-argument call.  ints: [bad index / assignment, second index, which]
 fn run_invalid<T: Tbl>(ev: &Ev) -> String {
     let n = ev.n;
-    let a = T::t_from_blocks(n, &ev.tabs[0]);
-    let b = T::t_from_blocks(n, &ev.tabs[1]);
+    // operands with a history (clone_from over another size, ...): the argument checks must look at what the
+    // value is now
+    let d = ev.digest();
+    let a = T::t_via_route(n, &ev.tabs[0], d).0;
+    let b = T::t_via_route(n, &ev.tabs[1], d.rotate_left(17)).0;
     let bad = ev.i(0);
     let ok = ev.i(1);
     let r: String = match ev.op.as_str() {
